@@ -1,6 +1,6 @@
 (* Model/C10Spec.v — C10: case type of the differential run, tie and oracles.  Executable definitions only.
    The model of octosql/types.go and Value.Type is Model/Types.v. *)
-From Octo Require Import Types.
+From Octo Require Import Types TypesClash.
 
 Definition oty_eqb (a b : option ty) : bool :=
   match a, b with
@@ -16,6 +16,7 @@ Inductive c10_case : Type :=
         (ab ba : rel) (eq : bool)           (* a.Is(b), b.Is(a), a.Equals(b) *)
         (s_ab s_ba : ty) (comm : bool)      (* TypeSum(a,b), TypeSum(b,a), TypeSum(a,b).Equals(TypeSum(b,a)) *)
         (inter : option ty)                 (* TypeIntersection(a,b) *)
+        (cl_ab cl_ba cl_inter : bool)       (* the engine's finding-class predicates sumClash(a,b), sumClash(b,a), interClash(a,b) *)
 (* the upper-bound law on its own (so that the known finding's class covers nothing else) *)
 | CUpper (a b s : ty) (a_s b_s : rel)       (* s = TypeSum(a,b); a.Is(s), b.Is(s) *)
 (* the lower-bound law of the intersection on its own *)
@@ -25,15 +26,17 @@ Inductive c10_case : Type :=
         (aa : rel) (s_aa : ty) (idem : bool) (* a.Is(a), TypeSum(a,a), TypeSum(a,a).Equals(a) *)
         (nn : ty)                            (* NonNullable(a) *)
 (* one value *)
-| CValue (v : value) (t : ty)                (* v.Type(): compared with the model *)
+| CValue (v : value) (t : ty) (cl : bool)     (* v.Type(): compared with the model; cl = the engine's valueClash(v) *)
 | CValueType (v : value) (t : ty).           (* v.Type(): does v inhabit it *)
 
 Definition c10_tie (c : c10_case) : bool :=
   match c with
-  | CPair a b _ ab ba eq s_ab s_ba comm inter =>
+  | CPair a b _ ab ba eq s_ab s_ba comm inter cl_ab cl_ba cl_inter =>
       rel_eqb (is_rel a b) ab && rel_eqb (is_rel b a) ba && Bool.eqb (ty_equals a b) eq
       && is_ok_ty (tsum a b) s_ab && is_ok_ty (tsum b a) s_ba && Bool.eqb (ty_equals s_ab s_ba) comm
       && match type_inter a b with Ok i => oty_eqb i inter | _ => false end
+      (* the engine tags the finding's class with exactly the model's class predicates *)
+      && Bool.eqb (sum_clash a b) cl_ab && Bool.eqb (sum_clash b a) cl_ba && Bool.eqb (inter_clash a b) cl_inter
   | CUpper a b s a_s b_s =>
       is_ok_ty (tsum a b) s && rel_eqb (is_rel a s) a_s && rel_eqb (is_rel b s) b_s
   | CInter a b i i_a i_b =>
@@ -42,14 +45,14 @@ Definition c10_tie (c : c10_case) : bool :=
   | CType a _ aa s_aa idem nn =>
       rel_eqb (is_rel a a) aa && is_ok_ty (tsum a a) s_aa && Bool.eqb (ty_equals s_aa a) idem
       && ty_eqb (non_nullable a) nn
-  | CValue v t => is_ok_ty (type_of_value v) t
+  | CValue v t cl => is_ok_ty (type_of_value v) t && Bool.eqb (value_clash v) cl
   | CValueType v t => true
   end.
 
 (* the laws, read on the implementation's own answers *)
 Definition c10_spec (c : c10_case) : bool :=
   match c with
-  | CPair a b vals ab ba eq s_ab s_ba comm inter =>
+  | CPair a b vals ab ba eq s_ab s_ba comm inter _ _ _ =>
       (* Equals is mutual Is *)
       Bool.eqb eq (is_Is ab && is_Is ba)
       (* commutative up to Equals, on normal-form types *)
@@ -64,6 +67,6 @@ Definition c10_spec (c : c10_case) : bool :=
       && (if nn_shape a
           then forallb (fun v => Bool.eqb (has_type v nn) (has_type v a && not_null v)) vals
           else true)
-  | CValue v t => true
+  | CValue v t _ => true
   | CValueType v t => has_type v t
   end.
